@@ -21,10 +21,84 @@ EXEC_POOL = [["p", x] for x in ["{", "}", "(", ")", ":", "...", "@", "$", "[", "
 SDL_POOL = [["p", x] for x in ["{", "}", "(", ")", ":", "@", "[", "]", "=", "!", "&", "|"]] + \
            [["n", x] for x in ["a", "b", "schema", "extend", "scalar", "type", "interface", "union", "enum", "input", "directive",
                                "implements", "repeatable", "on", "query", "mutation", "FIELD", "ENUM", "true"]] + [["i", "1"], STR_TOKENS["s:s1"]]
-EXEC_TINY = [["p", x] for x in ["{", "}", "(", ")", ":", "...", "@", "$"]] + [["n", x] for x in ["a", "on", "query", "fragment"]] + [["i", "1"]]
-SDL_TINY = [["p", x] for x in ["{", "}", ":", "@", "=", "|"]] + [["n", x] for x in ["a", "type", "scalar", "union", "extend", "schema", "query"]]
+EXEC_TINY = [["p", x] for x in ["{", "}", "(", ")", ":", "...", "@"]] + [["n", x] for x in ["a", "on", "query", "fragment"]]
+SDL_TINY = [["p", x] for x in ["{", "}", ":", "@", "="]] + [["n", x] for x in ["a", "type", "scalar", "union", "extend", "schema"]]
 
-GRAMMAR_CONSTS = "CONSTANT Sigma = {}\nCONSTANT MaxLen = 0\nCONSTANT First = {}\n"
+WRAP = {  # generator run id -> (mode, tokens before, tokens after) of the complete document
+    "exec": ("exec", [], []),
+    "sdl": ("sdl", [], []),
+    "vardefs": ("exec", [["n", "query"]], [["p", "{"], ["n", "a"], ["p", "}"]]),
+    "fielddef": ("sdl", [["n", "type"], ["n", "a"], ["p", "{"]], [["p", "}"]]),
+    "value": ("exec", [["p", "{"], ["n", "a"], ["p", "("], ["n", "a"], ["p", ":"]], [["p", ")"], ["p", "}"]]),
+    "sel": ("exec", [["p", "{"]], [["p", "}"]]),
+}
+
+
+def T(text):
+    """Token sequence of a space-separated witness; names/puncts/ints by shape, ~x = block string b1, 'x = string s1."""
+    out = []
+    for w in text.split(" "):
+        if w == "'s":
+            out.append(STR_TOKENS["s:s1"])
+        elif w == "~b":
+            out.append(STR_TOKENS["b:b1"])
+        elif w[0].isalpha() or w[0] == "_":
+            out.append(["n", w])
+        elif w[0].isdigit() or (w[0] == "-" and len(w) > 1):
+            out.append(["f" if ("." in w or "e" in w) else "i", w])
+        else:
+            out.append(["p", w])
+    return out
+
+
+# witnesses of the known findings and their nearest correct neighbours (always part of the run)
+SEEDS = [
+    ("exec", "query ( ) { a }", None),
+    ("exec", "query ( $ a : a = 1 @ a ) { a }", None),
+    ("exec", "query ( $ a : a @ a = 1 ) { a }", None),
+    ("exec", "query ( $ a : a @ a ( a : [ 1 ] ) @ b = [ 1 ] ) { a }", None),
+    ("exec", "query ( $ a : a @ a ( a : $ b ) ) { a }", None),
+    ("exec", "query ( $ a : a = $ b ) { a }", None),
+    ("exec", "query ( $ a : [ a ] ) { a }", None),
+    ("exec", "query ( $ a : [ a ! ] ! ) { a }", [" ", "", "", "", " ", "", "", "", "", "", " ", " ", " "]),
+    ("exec", "query ( $ a : a ! ) { a }", None),
+    ("exec", "{ ... on a { a } }", [" ", " ", " #c\n ", " ", " ", " ", " "]),
+    ("exec", "{ ... on a { a } }", [" ", "", ",\t\r\n\ufeff", "", "", "", ""]),
+    ("exec", "fragment a on a { a } { a }", [" ", " ", "#\n", " ", " ", " ", " ", " ", " "]),
+    ("exec", "{ ... on }", None),
+    ("exec", "{ ... on @ a }", None),
+    ("exec", "fragment on on a { a } { a }", None),
+    ("exec", "{ a ( a : truex ) }", None),
+    ("exec", "{ a ( a : [ truex nullable falsey ] ) }", None),
+    ("exec", "{ truex }", None),
+    ("exec", "queryx { a }", None),
+    ("exec", "{ a ( a : -0 ) }", None),
+    ("exec", "{ a ( a : { a : 1 b : 'S } ) }".replace("'S", "'s"), None),
+    ("sdl", "directive @ a on FIELD", None),
+    ("sdl", "directive @ a repeatable on FIELD | ENUM", None),
+    ("sdl", "'s schema { query : a }", None),
+    ("sdl", "schema { query : a mutation : b subscription : a }", None),
+    ("sdl", "schema { query : a query : b }", None),
+    ("sdl", "extend interface a implements b", None),
+    ("sdl", "extend interface a implements b @ a", None),
+    ("sdl", "extend type a implements b", None),
+    ("sdl", "enum a { truex }", None),
+    ("sdl", "typeT { a : a }", None),
+    ("sdl", "type a { a : [ a ] }", None),
+    ("sdl", "type a { a ( a : a = 1 @ a ) : a ! }", ["\n"] * 16),
+    ("sdl", "'s input a @ a { ~b a : a = [ 1 ] @ b } enum a { 's a @ a b } union a @ a = a | b interface a implements a & b { a : a }", None),
+    ("sdl", "extend schema @ a { mutation : a } extend scalar a @ a extend union a = | a extend enum a { a } extend input a @ a", None),
+    ("exec", "mutation a @ a { a : b ( a : $ a ) @ a { ... a @ a ... @ a { a } ... { a } } } subscription b { a } fragment a on b @ a { a }", None),
+]
+# every kind of tree entry must have been produced by the parser and compared successfully at least once
+TREE_KINDS = {"def", "op", "opname", "var", "named", "list", "endlist", "nonnull", "default", "dir", "arg", "varref", "int", "float", "str",
+              "bool", "null", "enum", "[", "]", "{", "}", "key", "sel{", "}sel", "field", "alias", "spread", "inline", "on", "frag", "kind",
+              "name", "impl", "fields{", "}fields", "fdef", "args(", ")args", "ivdef", "member", "values{", "}values", "evalue", "infields{",
+              "}infields", "repeatable", "loc", "desc", "extend", "rootq", "rootm", "roots"}
+LEX_SEEDS = [
+    "Q Q Q a BS Q Q Q b Q Q Q", "Q Q Q a LF SP LF SP SP b Q Q Q", "Q Q Q a Q", "0 1", "MINUS 0", "Q BS u D 8 0 0 Q", "Q BS u D 0 0 0 Q",
+    "Q U4 a Q", "U4", "a U4", "Q Q Q U4 LF Q Q Q", "Q a BS n Q", "Q BS b BS f BS r BS t BS SLASH BS BS BS Q Q", "Q BS x Q", "Q BS u 0 0 e Q", "1 DOT 8 e MINUS 1", "1 DOT", "1 e", "Q a LF Q", "Q Q Q LF SP SP a LF SP SP SP b LF Q Q Q",
+]
 
 
 def tok_of_label(lab):
@@ -34,43 +108,39 @@ def tok_of_label(lab):
     return [k, s]
 
 
-def tla_set(xs):
-    return "{" + ", ".join('"%s"' % x for x in xs) + "}"
-
-
-def gen_docs(c, label, start, alpha, maxtoks, maxdefs):
-    cfg = c.path("Gen_%s.cfg" % label)
+def gen_docs(c, runs):
+    """One TLC run of the generator for all runs of the tier: {run id: [token sequence]}."""
+    cfg = c.path("Gen_Grammar.cfg")
     with open(cfg, "w") as f:
-        f.write("CONSTANT Alphabet <- %s\nCONSTANT MaxToks = %d\nCONSTANT MaxDefs = %d\nCONSTANT Start = \"%s\"\n%s"
-                "INIT GInit\nNEXT GNext\nINVARIANT GEmit\n" % (alpha, maxtoks, maxdefs, start, GRAMMAR_CONSTS))
-    g = vlib.run_tlc("lex/Grammar.tla", cfg, workers=8, timeout=3000, keep_lines=50, xmx="8g")
-    c.add_tlc("G %s documents (<=%d tokens, <=%d definitions)" % (label, maxtoks, maxdefs), g)
-    docs = set()
+        f.write("CONSTANT Runs <- %s\nCONSTANT LRuns = {}\nINIT GInit\nNEXT GNext\nINVARIANT GEmit\n" % runs)
+    g = vlib.run_tlc("lex/Grammar.tla", cfg, workers=8, timeout=6000, keep_lines=50, xmx="8g")
+    c.add_tlc("G Grammar %s" % runs, g)
+    docs = {}
     for t in g.tagged("REPLAY"):
-        labs = vlib.parse_tuple_line(t[1].strip())
-        docs.add(tuple(labs))
-    docs = sorted(docs, key=lambda d: (len(d), d))
-    if not docs:
-        raise vlib.ToolError("generator %s produced no document" % label)
-    return [[tok_of_label(x) for x in d] for d in docs]
+        docs.setdefault(t[1], set()).add(tuple(t[2].split(" ")))
+    out = {}
+    for rid in WRAP:
+        ds = sorted(docs.get(rid, ()), key=lambda d: (len(d), d))
+        if not ds:
+            raise vlib.ToolError("generator run %s produced no document" % rid)
+        out[rid] = [[tok_of_label(x) for x in d] for d in ds]
+    return out
 
 
-def gen_texts(c, label, sigma, maxlen, first, invariants=True):
-    cfg = c.path("Lex_%s.cfg" % label)
+def gen_texts(c, runs):
+    """One TLC run of the lexer automaton (invariants on = mode M, LEmit = mode G): {run id: [class text]}."""
+    cfg = c.path("Gen_Lexer.cfg")
     with open(cfg, "w") as f:
-        f.write("CONSTANT Sigma = %s\nCONSTANT MaxLen = %d\nCONSTANT First = %s\nINIT LInit\nNEXT LNext\nINVARIANT LEmit\n"
-                % (tla_set(sigma), maxlen, tla_set(first)))
-        if invariants:
-            f.write("INVARIANT LTypeOK\nINVARIANT Conservation\nINVARIANT TokensWellFormed\n")
-    g = vlib.run_tlc("lex/StringLitP.tla", cfg, workers=8, timeout=3000, keep_lines=50, xmx="8g")
+        f.write("CONSTANT LRuns <- %s\nINIT LInit\nNEXT LNext\nINVARIANT LEmit\nINVARIANT LTypeOK\nINVARIANT Conservation\n"
+                "INVARIANT TokensWellFormed\n" % runs)
+    g = vlib.run_tlc("lex/StringLitP.tla", cfg, workers=8, timeout=6000, keep_lines=50, xmx="8g")
     if g.invariant_violated:
-        raise vlib.ToolError("design-level failure in StringLitP.tla (%s): %s" % (label, g.invariant_violated))
-    c.add_tlc("M+G lexer texts %s (<=%d classes over %d)" % (label, maxlen, len(sigma)), g)
-    texts = set()
+        raise vlib.ToolError("design-level failure in StringLitP.tla: %s" % g.invariant_violated)
+    c.add_tlc("M+G StringLitP %s" % runs, g)
+    texts = {}
     for t in g.tagged("REPLAY"):
-        raw = t[1].strip() if isinstance(t[1], str) else ""
-        texts.add(tuple([] if raw.replace(" ", "") == "<<>>" else vlib.parse_tuple_line(raw)))
-    return sorted(texts, key=lambda d: (len(d), d))
+        texts.setdefault(t[1], set()).add(tuple(t[2].split(" ")) if t[2] else ())
+    return {k: sorted(v, key=lambda d: (len(d), d)) for k, v in texts.items()}
 
 
 def mutants(doc, pool, rng, n):
@@ -92,60 +162,102 @@ def mutants(doc, pool, rng, n):
     return out
 
 
+def replay(c):
+    """./check C13 --replay <file>: one recorded case again through the harness and TLC, with the expectations."""
+    import json
+    with open(c.replay) as f:
+        case = json.load(f)["case"]
+    one = {"id": 1, "mode": case["mode"], "style": 1}
+    if case["mode"] == "lex":
+        one["text"] = case["text"]
+    else:
+        one.update({"toks": case["toks"], "seps": case.get("seps") or [" "] * (len(case["toks"]) - 1),
+                    "lead": case.get("lead", ""), "trail": case.get("trail", "")})
+    vlib.write_ndjson(c.path("cases.ndjson"), [one])
+    (binary,) = vlib.build_harness(["c13"])
+    p = vlib.run_harness(binary, ["run", c.path("cases.ndjson"), c.path("trace.ndjson"), c.seed], timeout=600)
+    if p.returncode != 0:
+        raise vlib.ToolError("c13 harness failed: " + p.stderr[-2000:])
+    o = vlib.read_ndjson(c.path("trace.ndjson"))[0]
+    v = vlib.run_tlc("lex/GrammarTrace.tla", "lex/GrammarExplain.cfg", env={"TRACE": c.path("trace.ndjson")}, workers=1, timeout=600)
+    vd = [t for t in v.tagged("VERDICT")][0]
+    ex = [t for t in v.tagged("EXPECT")][0]
+    print("source   : %r" % o["src"])
+    print("observed : acc=%s err=%s tree=%s" % (o["acc"], o["err"], json.dumps(o["ast"])))
+    print("expected : %s" % ex[2])
+    print("verdict  : %s (grammar: %s)" % (vd[2], vd[3]))
+    c.verdict(vd[2], o, "parser disagrees with the grammar: %r" % o["src"][:70])
+    sys.exit(1 if c.violations else 0)      # a replay is one case: no evidence file, no vacuity accounting
+
+
 def body(c):
+    if c.replay:
+        replay(c)
     q = c.quick
     rng = random.Random(c.seed)
     # ---------------- mode M ----------------
-    for cfgname, label in (("lex/MC_Grammar.cfg", "M Grammar executable (<=6 tokens)"), ("lex/MC_GrammarSdl.cfg", "M Grammar type system (<=5 tokens)")):
-        m = vlib.run_tlc("lex/Grammar.tla", cfgname, workers=8, timeout=1800, xmx="8g")
+    m = vlib.run_tlc("lex/Grammar.tla", "lex/MC_Grammar.cfg", workers=8, timeout=1800, xmx="8g")
+    if m.invariant_violated:
+        raise vlib.ToolError("design-level failure in Grammar.tla: " + str(m.invariant_violated))
+    if m.distinct < 1000:
+        raise vlib.ToolError("vacuity: mode M of Grammar.tla explored only %d states" % m.distinct)
+    c.add_tlc("M Grammar (RunsM: executable <=6, type system <=5, variable definitions <=8, values <=4 tokens)", m)
+    if not q:
+        m = vlib.run_tlc("lex/StringLitP.tla", "lex/MC_StringLitP.cfg", workers=8, timeout=1800, xmx="8g")
         if m.invariant_violated:
-            raise vlib.ToolError("design-level failure in Grammar.tla: " + str(m.invariant_violated))
-        if m.distinct < 100:
-            raise vlib.ToolError("vacuity: %s explored only %d states" % (label, m.distinct))
-        c.add_tlc(label, m)
+            raise vlib.ToolError("design-level failure in StringLitP.tla: " + str(m.invariant_violated))
+        c.add_tlc("M StringLitP (<=5 classes over 9)", m)
     # ---------------- mode G ----------------
-    le, ls = (8, 7) if q else (10, 8)
-    exec_docs = gen_docs(c, "exec", "Doc", "AlphaExec", le, 2)
-    sdl_docs = gen_docs(c, "sdl", "SDoc", "AlphaSdl", ls, 2)
+    docs = gen_docs(c, "RunsQuick" if q else "RunsThorough")
+    texts = gen_texts(c, "LRunsQuick" if q else "LRunsThorough")
     cases = []
 
     def add(mode, sub, **kw):
         kw.update({"id": len(cases) + 1, "mode": mode, "sub": sub})
         cases.append(kw)
 
-    # (1) valid set, rendered with seeded ignored tokens / spellings
-    styles = [0, 2] if q else [0, 1, 2, 3, 4]
-    for mode, docs in (("exec", exec_docs), ("sdl", sdl_docs)):
-        for d in docs:
-            for st in styles:
-                add(mode, "valid", toks=d, style=st)
+    # (1) valid set, rendered with seeded ignored tokens / spellings (style 0: no separators where legal, 1: single
+    #     spaces, >=2: seeded random separators and spellings)
+    full = []
+    for rid, (mode, pre, post) in WRAP.items():
+        for d in docs[rid]:
+            full.append((mode, pre + d + post))
+    for i, (mode, d) in enumerate(full):
+        add(mode, "valid", toks=d, style=2)
+        if not q:
+            add(mode, "valid", toks=d, style=3)
+        if i % 3 == 0 or not q:
+            add(mode, "valid", toks=d, style=0)
+    for mode, text, seps in SEEDS:
+        toks = T(text)
+        if seps is None:
+            add(mode, "seed", toks=toks, style=1)
+        else:
+            if len(seps) != len(toks) - 1:
+                raise vlib.ToolError("bad seed separators: " + text)
+            add(mode, "seed", toks=toks, style=1, seps=seps)
     # (2) accepts exactly: exhaustive short sequences + single-edit near misses
     lp = 3 if q else 4
     for mode, tiny in (("exec", EXEC_TINY), ("sdl", SDL_TINY)):
         for n in range(1, lp + 1):
             for seq in itertools.product(tiny, repeat=n):
                 add(mode, "exact", toks=[list(t) for t in seq], style=1)
-    nm = 1 if q else 3
-    for mode, docs, pool in (("exec", exec_docs, EXEC_POOL), ("sdl", sdl_docs, SDL_POOL)):
-        for d in docs:
-            for mdoc in mutants(d, pool, rng, nm):
-                add(mode, "nearmiss", toks=mdoc, style=1)
+    for i, (mode, d) in enumerate(full):
+        if q and i % 2:
+            continue
+        for mdoc in mutants(d, EXEC_POOL if mode == "exec" else SDL_POOL, rng, 1):
+            add(mode, "nearmiss", toks=mdoc, style=1)
     # selection-set nesting around the documented limit
     for depth in (1, 2, 32, 63, 64, 65, 66, 67, 100):
         for shape in ("field", "inline", "mixed"):
             add("deep", "deep", depth=depth, shape=shape, style=(0 if depth % 2 else 1))
-    # (3) lexical level: strings, block strings, numbers / names inside a list value
-    ns, nn = (5, 4) if q else (6, 5)
-    texts = []
-    texts += gen_texts(c, "strings", ["Q", "BS", "a", "n", "u", "D", "8", "LF"], ns + 1, ["Q"])
-    texts += gen_texts(c, "numbers", ["0", "1", "MINUS", "DOT", "e", "PLUS", "a", "SP"], nn, ["0", "1", "MINUS", "DOT", "e", "PLUS", "a", "SP"])
-    blk = gen_texts(c, "blockA", ["a", "LF", "SP"], 7, ["a", "LF", "SP"], invariants=False)
-    blk += gen_texts(c, "blockB", ["a", "LF", "SP", "Q", "BS", "CR"], 4 if q else 6, ["a", "LF", "SP", "Q", "BS", "CR"], invariants=False)
-    if not q:
-        blk += gen_texts(c, "blockC", ["a", "LF", "SP", "TAB", "BS", "Q"], 7, ["a", "LF", "SP"], invariants=False)
-    texts += [("Q", "Q", "Q") + b + ("Q", "Q", "Q") for b in blk]
-    texts = sorted(set(texts), key=lambda d: (len(d), d))
-    for t in texts:
+    # (3) lexical level: strings, number / name runs, block strings inside a list value
+    lex = set(texts.get("strings", [])) | set(texts.get("numbers", []))
+    for rid, ts in texts.items():
+        if rid.startswith("block"):
+            lex |= {("Q", "Q", "Q") + b + ("Q", "Q", "Q") for b in ts}
+    lex |= {tuple(x.split(" ")) for x in LEX_SEEDS}
+    for t in sorted(lex, key=lambda d: (len(d), d)):
         add("lex", "lex", text=list(t))
     vlib.write_ndjson(c.path("cases.ndjson"), cases)
     # ---------------- harness ----------------
@@ -164,16 +276,20 @@ def body(c):
     if len(verdicts) != len(obs):
         raise vlib.ToolError("V produced %d verdicts for %d cases" % (len(verdicts), len(obs)))
     stats = {}
+    kinds = set()
     for case, o in zip(cases, obs):
         vd, cls = verdicts[o["id"]]
         if vd.startswith("tool:"):
             raise vlib.ToolError("renderer precondition failed on case %s: %s" % (o["id"], o["src"]))
+        if vd == "ok" and o["acc"] == "yes":
+            kinds.update(e[0] for d in o["ast"] for e in d)
         key = (case["sub"], cls, o["acc"])
         stats[key] = stats.get(key, 0) + 1
         c.count_case({"mode": o["mode"], "toks": o["toks"], "gaps": o["gaps"], "text": o["text"]}, True)
         c.verdict(vd, {"sub": case["sub"], "mode": o["mode"], "src": o["src"], "toks": o["toks"], "gaps": o["gaps"], "text": o["text"],
+                       "seps": o["seps"], "lead": o["lead"], "trail": o["trail"],
                        "acc": o["acc"], "err": o["err"], "ast": o["ast"], "grammar": cls, "verdict": vd},
-                  "parser disagrees with the grammar (%s, %s): %s" % (case["sub"], cls, o["src"][:80]))
+                  "parser disagrees with the grammar (%s, %s, parser %s): %r" % (case["sub"], cls, "accepts" if o["acc"] == "yes" else "rejects" if o["acc"] == "no" else "panics", o["src"][:70]))
     # vacuity: every sub-check must have exercised both sides of "exactly"
     def total(sub=None, cls=None, acc=None):
         return sum(n for (s, k, a), n in stats.items() if (sub is None or s == sub) and (cls is None or k == cls) and (acc is None or a == acc))
@@ -181,16 +297,23 @@ def body(c):
             or total("exact", "member") < 5 or total("lex", "member", "yes") < 50 or total("lex", "nonmember") < 50 \
             or total(None, "illformed") < 5 or total("deep") < 9:
         raise vlib.ToolError("vacuous run: " + str(sorted(stats.items())))
+    if TREE_KINDS - kinds:
+        raise vlib.ToolError("vacuous run: tree entry kinds never compared: %s" % sorted(TREE_KINDS - kinds))
+    c.cov["tree_entry_kinds_compared"] = len(kinds)
     c.cov["traces_validated_against_impl"] = len(obs)
     c.cov["exhaustive"] = True
     c.cov["case_classes"] = {"%s/%s/%s" % k: n for k, n in sorted(stats.items())}
-    c.cov["rule"] = ("(1) every valid token sequence of Grammar.tla with <=%d (executable, %d documents) / <=%d (type system, %d documents) "
-                     "tokens and <=2 definitions (TLC BFS), each rendered in %d styles with seeded ignored tokens (spaces, tabs, commas, BOM, "
-                     "comments, LF/CR/CRLF, also inside types and after `on`) and seeded name spellings; (2) every token sequence of length <=%d "
-                     "over 13-token alphabets, %d seeded single-edit mutants per valid sequence, selection sets nested 1..100 deep; (3) every "
-                     "code-point-class text (quoted-string, number/name runs, block-string bodies) up to the lexer bounds inside a list value. "
-                     "Every case is judged by TLC (recogniser + denoted tree); all cases are non-trivial; distinct by (mode, tokens, gaps, text)"
-                     % (le, len(exec_docs), ls, len(sdl_docs), len(styles), lp, nm))
+    ndocs = {rid: len(ds) for rid, ds in docs.items()}
+    c.cov["generated_documents"] = ndocs
+    c.cov["generated_texts"] = {rid: len(ts) for rid, ts in texts.items()}
+    c.cov["rule"] = ("(1) every valid token sequence of Grammar.tla for the runs %s (TLC BFS; whole executable / type-system documents with <=2 "
+                     "definitions, and the sub-grammars variable definitions, field definition, value, selection wrapped into a document): %s; "
+                     "each rendered in %s styles with seeded ignored tokens (none where legal, spaces, tabs, commas, BOM, comments, LF/CR/CRLF, "
+                     "also inside types and after `on`) and seeded name spellings; (2) every token sequence of length <=%d over two 11-token "
+                     "alphabets, seeded single-edit mutants of the valid sequences, selection sets nested 1..100 deep; (3) every code-point-class "
+                     "text of the lexer runs %s (quoted strings, number/name runs, block-string bodies) inside a list value. Every case is judged "
+                     "by TLC (recogniser + denoted tree); all cases are non-trivial; distinct by (mode, tokens, gaps, text)"
+                     % ("RunsQuick" if q else "RunsThorough", ndocs, "1-2" if q else "3", lp, "LRunsQuick" if q else "LRunsThorough"))
     picks = [o for o in obs if o["mode"] == "exec" and o["acc"] == "yes"][:1] + [o for o in obs if o["mode"] == "sdl" and o["acc"] == "yes"][-1:] + \
             [o for o in obs if o["mode"] == "lex" and o["acc"] == "yes"][-1:]
     for o in picks:
